@@ -4,6 +4,7 @@ import (
 	"github.com/bolkedebruin/rdpgw/cmd/rdpgw/identity"
 	"github.com/bolkedebruin/rdpgw/cmd/rdpgw/transport"
 	"net"
+	"sync"
 	"time"
 )
 
@@ -44,10 +45,16 @@ type Tunnel struct {
 
 	// LastSeen is when the server received the last packet from the client
 	LastSeen time.Time
+
+	// writeMu serializes Write: the packet loop and the relay goroutine both send to the client
+	writeMu sync.Mutex
 }
 
 // Write puts the packet on the transport and updates the statistics for bytes sent
 func (t *Tunnel) Write(pkt []byte) {
+	t.writeMu.Lock()
+	defer t.writeMu.Unlock()
+
 	n, _ := t.transportOut.WritePacket(pkt)
 	t.BytesSent += int64(n)
 }
